@@ -161,6 +161,12 @@ namespace opensmt {
         }
 
         if (is_frac) {
+            // A fraction needs a non-zero denominator (GMP divides by it when canonicalizing)
+            const char * den = flo;
+            while (*den != '/') { den++; }
+            den++;
+            while (*den == '0') { den++; }
+            if (*den == '\0') { throw strConvException(flo); }
             normalize(rat, flo, is_neg);
             return true;
         }
